@@ -3,6 +3,7 @@ From LLGoV Require Import C07.Model C07.PItab C07.PStr.
 Local Open Scope N_scope.
 
 Section Same.
+Variable fx : bool.
 Variable H : str -> str.
 
 Lemma ostr_eqb_eq a b : ostr_eqb a b = true -> a = b.
@@ -68,59 +69,63 @@ Proof.
   end. reflexivity.
 Qed.
 
-Lemma tn_func pm ps rs v : tn H pm (TFunc ps rs v) =
-  (s_func_ ++ H (func_hdr (tys_len ps) (tys_len rs) v ++ tuple_lines H ps ++ tuple_lines H rs), true).
+Lemma tn_func pm ps rs v : tn fx H pm (TFunc ps rs v) =
+  (s_func_ ++ H (func_hdr (tys_len ps) (tys_len rs) v ++ tuple_lines fx H ps ++ tuple_lines fx H rs), true).
 Proof. reflexivity. Qed.
-Lemma tn_struct pm fs : tn H pm (TStruct fs) =
+Lemma tn_struct pm fs : tn fx H pm (TStruct fs) =
   if pm && is_closure fs then
-    match fs with FsCons _ _ _ _ t0 _ => tn H false t0 | FsNil => ([], false) end
+    match fs with FsCons _ _ _ _ t0 _ => tn fx H false t0 | FsNil => ([], false) end
   else
-    let h := H (s_struct ++ [c_sp] ++ dec (fields_len fs) ++ [c_nl] ++ field_lines H fs) in
+    let h := H (s_struct ++ [c_sp] ++ dec (fields_len fs) ++ [c_nl] ++ field_lines fx H fs) in
     if is_closure fs then (s_closure_ ++ h, true)
     else match fields_pkg [] fs with
          | [] => (s_struct_ ++ h, false)
          | p => (p ++ s_dstruct ++ h, false)
          end.
 Proof. reflexivity. Qed.
-Lemma tn_iface pm ms : tn H pm (TIface ms) =
+Lemma tn_iface pm ms : tn fx H pm (TIface ms) =
   match ms with
   | MsNil => (s_any, true)
   | _ =>
-      let h := H (s_interface ++ [c_sp] ++ dec (methods_len ms) ++ [c_nl] ++ method_lines H ms) in
+      let h := H (s_interface ++ [c_sp] ++ dec (methods_len ms) ++ [c_nl] ++ method_lines fx H ms) in
       match methods_pkg [] ms with
       | [] => (s_iface_ ++ h, true)
       | p => (p ++ s_diface ++ h, false)
       end
   end.
 Proof. reflexivity. Qed.
-Lemma tuple_lines_cons n t r : tuple_lines H (TsCons n t r) = fst (tn H true t) ++ [c_nl] ++ tuple_lines H r.
+Lemma tuple_lines_cons n t r : tuple_lines fx H (TsCons n t r) = fst (tn fx H true t) ++ [c_nl] ++ tuple_lines fx H r.
 Proof. reflexivity. Qed.
-Lemma field_lines_cons n emb tag pkg t r : field_lines H (FsCons n emb tag pkg t r) =
-  (if emb then [c_dash] else n) ++ [c_sp] ++ fst (tn H false t) ++ [c_nl] ++ field_lines H r.
+Lemma field_lines_cons n emb tag pkg t r : field_lines fx H (FsCons n emb tag pkg t r) =
+  (if emb then (if fx then c_dash :: n else [c_dash]) else n) ++ [c_sp] ++ fst (tn fx H false t)
+  ++ (if fx && negb (is_nil tag) then [c_sp] ++ quote_tag tag else []) ++ [c_nl] ++ field_lines fx H r.
 Proof. reflexivity. Qed.
-Lemma method_lines_cons n pkg ps rs v r : method_lines H (MsCons n pkg ps rs v r) =
-  n ++ [c_sp] ++ (s_func_ ++ H (func_hdr (tys_len ps) (tys_len rs) v ++ tuple_lines H ps ++ tuple_lines H rs))
-  ++ [c_nl] ++ method_lines H r.
+Lemma method_lines_cons n pkg ps rs v r : method_lines fx H (MsCons n pkg ps rs v r) =
+  (if fx then method_id n pkg else n) ++ [c_sp] ++ (s_func_ ++ H (func_hdr (tys_len ps) (tys_len rs) v ++ tuple_lines fx H ps ++ tuple_lines fx H rs))
+  ++ [c_nl] ++ method_lines fx H r.
 Proof. reflexivity. Qed.
+
+Lemma method_id_same n p q : (exported n = true \/ p = q) -> method_id n p = method_id n q.
+Proof. unfold method_id. intros [-> | ->]; reflexivity. Qed.
 
 Definition head_tn (fs : fields) : str * bool :=
-  match fs with FsCons _ _ _ _ t0 _ => tn H false t0 | FsNil => ([], false) end.
+  match fs with FsCons _ _ _ _ t0 _ => tn fx H false t0 | FsNil => ([], false) end.
 
 Definition P_ty (t : ty) : Prop := forall t2, identb t t2 = true ->
-  (targs_ok t = true -> targs_ok t2 = true -> forall pm, tn H pm t = tn H pm t2) /\
+  (targs_ok t = true -> targs_ok t2 = true -> forall pm, tn fx H pm t = tn fx H pm t2) /\
   (targ_plain t = true -> targ_plain t2 = true -> targ_str t = targ_str t2).
 Definition P_tys (ts : tys) : Prop := forall ts2, identb_tys ts ts2 = true ->
   (targs_ok_tys ts = true -> targs_ok_tys ts2 = true ->
-     tuple_lines H ts = tuple_lines H ts2 /\ tys_len ts = tys_len ts2) /\
+     tuple_lines fx H ts = tuple_lines fx H ts2 /\ tys_len ts = tys_len ts2) /\
   (targs_plain ts = true -> targs_plain ts2 = true -> targs_strs ts = targs_strs ts2) /\
   (ts = TsNil <-> ts2 = TsNil).
 Definition P_fields (fs : fields) : Prop := forall fs2, identb_fields fs fs2 = true ->
   targs_ok_fields fs = true -> targs_ok_fields fs2 = true ->
-  field_lines H fs = field_lines H fs2 /\ fields_len fs = fields_len fs2 /\
+  field_lines fx H fs = field_lines fx H fs2 /\ fields_len fs = fields_len fs2 /\
   (forall acc, fields_pkg acc fs = fields_pkg acc fs2) /\ head_tn fs = head_tn fs2.
 Definition P_methods (ms : methods) : Prop := forall ms2, identb_methods ms ms2 = true ->
   targs_ok_methods ms = true -> targs_ok_methods ms2 = true ->
-  method_lines H ms = method_lines H ms2 /\ methods_len ms = methods_len ms2 /\
+  method_lines fx H ms = method_lines fx H ms2 /\ methods_len ms = methods_len ms2 /\
   (forall acc, methods_pkg acc ms = methods_pkg acc ms2) /\ (ms = MsNil <-> ms2 = MsNil).
 
 Lemma tys_nil_iff (a b : tys) : (a = TsNil <-> b = TsNil) ->
@@ -210,6 +215,7 @@ Proof.
     match goal with E : identb_fields r _ = true |- _ => destruct (IHr _ E ltac:(assumption) ltac:(assumption)) as (C1 & C2 & C3 & _) end.
     pose proof (A ltac:(assumption) ltac:(assumption) false) as TN.
     match goal with E : same_id _ _ _ _ = true |- _ => apply same_id_name in E; destruct E as [-> SP] end.
+    match goal with E : str_eqb tag _ = true |- _ => apply str_eqb_eq in E; subst end.
     rewrite !field_lines_cons. cbn [fields_len fields_pkg head_tn]. rewrite TN, C1, C2. repeat split; auto.
     intros acc. destruct SP as [SP| ->]; [|apply C3].
     rewrite SP. destruct acc; destruct pkg, pkg0; apply C3.
@@ -223,13 +229,14 @@ Proof.
     destruct (A ltac:(assumption) ltac:(assumption)) as [A1 A2].
     destruct (B ltac:(assumption) ltac:(assumption)) as [B1 B2].
     match goal with E : same_id _ _ _ _ = true |- _ => apply same_id_name in E; destruct E as [-> SP] end.
-    rewrite !method_lines_cons. cbn [methods_len methods_pkg]. rewrite A1, A2, B1, B2, C1, C2. repeat split; auto; try discriminate.
+    rewrite !method_lines_cons. cbn [methods_len methods_pkg]. rewrite A1, A2, B1, B2, C1, C2.
+    rewrite (method_id_same _ _ _ SP). repeat split; auto; try discriminate.
     intros acc. destruct SP as [SP| ->]; [|apply C3].
     rewrite SP. destruct acc; destruct pkg, pkg0; apply C3.
 Qed.
 
 Theorem identical_same_name_lemma t1 t2 :
-  targs_ok t1 = true -> targs_ok t2 = true -> identb t1 t2 = true -> type_name H t1 = type_name H t2.
+  targs_ok t1 = true -> targs_ok t2 = true -> identb t1 t2 = true -> type_name fx H t1 = type_name fx H t2.
 Proof.
   intros A B E. destruct same_name_all as (S & _). destruct (S t1 t2 E) as [X _]. apply X; auto.
 Qed.
@@ -237,6 +244,7 @@ End Same.
 
 (* ---------- witnesses: distinct types, one name (for every hash) ---------- *)
 Section Witness.
+Variable fx : bool.
 Variable H : str -> str.
 Definition p_a : str := [97].                       (* a *)
 Definition p_xa : str := [120; 47; 97].             (* x/a *)
@@ -247,29 +255,29 @@ Definition named_aT := TNamed (Some p_a) [84] TsNil ScPkg.
 (* F6: struct{A int `x`} vs struct{A int `y`} *)
 Definition w_tag_x := TStruct (FsCons [65] false [120] (Some p_a) t_int FsNil).
 Definition w_tag_y := TStruct (FsCons [65] false [121] (Some p_a) t_int FsNil).
-Lemma struct_tag_witness : identb w_tag_x w_tag_y = false /\ type_name H w_tag_x = type_name H w_tag_y.
+Lemma struct_tag_witness : identb w_tag_x w_tag_y = false /\ type_name false H w_tag_x = type_name false H w_tag_y.
 Proof. split; reflexivity. Qed.
 
 (* struct{A} with A = T (alias) vs struct{T} *)
 Definition w_emb_A := TStruct (FsCons [65] true [] (Some p_a) named_aT FsNil).
 Definition w_emb_T := TStruct (FsCons [84] true [] (Some p_a) named_aT FsNil).
-Lemma embedded_alias_witness : identb w_emb_A w_emb_T = false /\ type_name H w_emb_A = type_name H w_emb_T.
+Lemma embedded_alias_witness : identb w_emb_A w_emb_T = false /\ type_name false H w_emb_A = type_name false H w_emb_T.
 Proof. split; reflexivity. Qed.
 
 (* interface{a.m(); x/a.n()} vs interface{a.m(); x/b.n()} *)
 Definition w_if (p : str) := TIface (MsCons [109] (Some p_a) TsNil TsNil false (MsCons [110] (Some p) TsNil TsNil false MsNil)).
-Lemma iface_second_pkg_witness : identb (w_if p_xa) (w_if p_xb) = false /\ type_name H (w_if p_xa) = type_name H (w_if p_xb).
+Lemma iface_second_pkg_witness : identb (w_if p_xa) (w_if p_xb) = false /\ type_name false H (w_if p_xa) = type_name false H (w_if p_xb).
 Proof. split; reflexivity. Qed.
 
 (* struct with unexported fields of two packages (go/types API only) *)
 Definition w_st (p : str) := TStruct (FsCons [120] false [] (Some p_a) t_int (FsCons [121] false [] (Some p) t_int FsNil)).
-Lemma struct_second_pkg_witness : identb (w_st p_xa) (w_st p_xb) = false /\ type_name H (w_st p_xa) = type_name H (w_st p_xb).
+Lemma struct_second_pkg_witness : identb (w_st p_xa) (w_st p_xb) = false /\ type_name fx H (w_st p_xa) = type_name fx H (w_st p_xb).
 Proof. split; reflexivity. Qed.
 
 (* position fallback vs dotted last path element: x/a . T .p5 *)
 Definition w_pos := TNamed (Some p_xa) [84] TsNil (ScPos 5).
 Definition w_dot := TNamed (Some (p_xa ++ [46; 84])) [112; 53] TsNil ScPkg.
-Lemma scope_pos_dotted_path_witness : identb w_pos w_dot = false /\ type_name H w_pos = type_name H w_dot.
+Lemma scope_pos_dotted_path_witness : identb w_pos w_dot = false /\ type_name fx H w_pos = type_name fx H w_dot.
 Proof. split; reflexivity. Qed.
 
 (* the internal closure record as a parameter is named like its func type (PublicType, by design) *)
@@ -277,11 +285,11 @@ Definition w_sig := TFunc (TsCons [] t_int TsNil) TsNil false.
 Definition w_clo := TStruct (FsCons s_f false [] None w_sig (FsCons s_data false [] None (TBasic 18 false) FsNil)).
 Definition w_f1 := TFunc (TsCons [] w_clo TsNil) TsNil false.
 Definition w_f2 := TFunc (TsCons [] w_sig TsNil) TsNil false.
-Lemma closure_param_witness : identb w_f1 w_f2 = false /\ type_name H w_f1 = type_name H w_f2.
+Lemma closure_param_witness : identb w_f1 w_f2 = false /\ type_name fx H w_f1 = type_name fx H w_f2.
 Proof. split; reflexivity. Qed.
 
 (* one type, two names: G[byte] vs G[uint8] *)
 Definition w_g (al : bool) := TNamed (Some p_xa) [71] (TsCons [] (TBasic 8 al) TsNil) ScPkg.
-Lemma targ_alias_witness : identb (w_g true) (w_g false) = true /\ fst (type_name H (w_g true)) <> fst (type_name H (w_g false)).
-Proof. split; [reflexivity|]. cbv. discriminate. Qed.
+Lemma targ_alias_witness : identb (w_g true) (w_g false) = true /\ fst (type_name fx H (w_g true)) <> fst (type_name fx H (w_g false)).
+Proof. split; [reflexivity|]. destruct fx; cbv; discriminate. Qed.
 End Witness.
